@@ -103,6 +103,18 @@ def run(ctx):
             else: impl, fails = impl_dec(drv, k, fl, 0 if k != 1 else 3, lambda i: i, blobs)
             for ff in fails:
                 ctx.violation('decoder crashed on damaged file', {'line': (ff[0] or '')[:20000], 'stderr': ff[1], 'kind': 'sanitizer'})
+            # piecewise feeding: the same damaged files one input byte per call (a call ends inside every field, also inside
+            # Block Padding and Stream Padding); the verdict may not depend on where the calls end
+            if k in (0, 2, 3, 4):
+                i1, f1 = impl_dec(drv, k, fl, 1, 0, blobs)
+                for ff in f1:
+                    ctx.violation('decoder crashed on damaged file (byte-wise)', {'line': (ff[0] or '')[:20000], 'stderr': ff[1], 'kind': 'sanitizer'})
+                for j, r1 in enumerate(i1):
+                    if r1 is None or impl[j] is None: continue
+                    n_eval += 1
+                    if (r1[0] == 1) != (impl[j][0] == 1) or (r1[0] == 1 and r1[4] != impl[j][4]):
+                        viol.append(dict(fmt=fmt, decoder=k, flags=fl, fault=faults[j][1] + ', one input byte per call', pos=faults[j][2], file=blobs[j].hex(), original=f.hex(), ret=r1[0],
+                                         why='fed one byte per call the decoder answers %d (%d bytes out), in one call %d (%d bytes out): damage is accepted or rejected depending on where the calls end' % (r1[0], len(r1[4]), impl[j][0], len(impl[j][4]))))
             spec = oracle_dec(orc, oc, blobs) if oc else None
             # the same damaged files on a decoder that was used before: the handle first decodes the undamaged file (all or part
             # of it), is re-initialised without lzma_end, and then gets the damaged file; nothing may be carried over
